@@ -1,6 +1,7 @@
 import Driver.Common
 import RxModel.ThrSO
 import RxModel.ThrTramp
+import RxModel.ThrEL
 open Lean Drv
 
 namespace DrvThr
@@ -226,8 +227,164 @@ def handleTr (op : String) (j : Json) : Except String Json := do
   | _ => throw s!"unknown op {op}"
 end Tramp
 
+/-! ## C31: EventLoopScheduler -/
+section EL
+open Thr.EL
+
+partial def elOpOfJson (j : Json) : Except String Thr.EL.Op := do
+  match j with
+  | .arr #[.str "sched", l, .arr b] => pure (.sched (← l.getNat?) (← b.toList.mapM elOpOfJson))
+  | .arr #[.str "rel", l, d, .arr b] => pure (.schedRel (← l.getNat?) (← d.getInt?) (← b.toList.mapM elOpOfJson))
+  | .arr #[.str "abs", l, t, .arr b] => pure (.schedAbs (← l.getNat?) (← t.getInt?) (← b.toList.mapM elOpOfJson))
+  | .arr #[.str "cancel", l] => pure (.cancel (← l.getNat?))
+  | .arr #[.str "dispose"] => pure .dispose
+  | .arr #[.str "tick", d] => pure (.tick (← d.getNat?))
+  | _ => throw s!"bad op {j.compress}"
+
+def jn (n : Nat) : Json := .num (JsonNumber.fromNat n)
+def ji (i : Int) : Json := .num (JsonNumber.fromInt i)
+def jids (l : List Nat) : Json := Json.arr (l.map jn).toArray
+
+/-- label of the step thread `me` is about to take (none = silent or not enabled) -/
+def elLabel (xie : Bool) (sh : Sh) (th : Th) : Option Json :=
+  match th.stack with
+  | [] => none
+  | .act none [] :: _ => none
+  | .act (some i) [] :: _ => some (Json.arr #[.str "fin", jn i])
+  | .act _ (.tick d :: _) :: _ => some (Json.arr #[.str "tick", jn d])
+  | .act _ (.cancel k :: _) :: _ => some (Json.arr #[.str "cancel", jn k])
+  | .act _ (.dispose :: _) :: _ => some (Json.arr #[.str "dispose", .bool (!sh.disposed)])
+  | .act _ (.sched l _ :: _) :: _ => some (Json.arr #[.str "sched", jn l, ji sh.clock, ji sh.clock])
+  | .act _ (.schedRel l d _ :: _) :: _ => some (Json.arr #[.str "sched", jn l, ji (sh.clock + max d 0), ji sh.clock])
+  | .act _ (.schedAbs l t _ :: _) :: _ => some (Json.arr #[.str "sched", jn l, ji t, ji sh.clock])
+  | .chk _ it _ :: _ => some (Json.arr #[.str "chk", jn it.id, .bool sh.disposed])
+  | .enq _ it _ :: _ => some (Json.arr #[.str "enq", jn it.id, .bool (decide (it.due ≤ sh.clock)), .bool sh.thread.isNone])
+  | .loop .top _ :: _ =>
+    if sh.disposed then some (Json.arr #[.str "exitDisposed"])
+    else some (Json.arr #[.str "collect", jids ((merge sh.clock sh.queue sh.readyList).1.map (·.id)), ji sh.clock])
+  | .loop .exec [] :: _ => none
+  | .loop .exec (it :: _) :: _ =>
+    if it.id ∈ sh.cancelled then some (Json.arr #[.str "skip", jn it.id]) else some (Json.arr #[.str "start", jn it.id])
+  | .loop .check _ :: _ =>
+    match sh.readyList with
+    | _ :: _ => some (Json.arr #[.str "cont"])
+    | [] => match sh.queue with
+      | it :: _ => if it.due > sh.clock then some (Json.arr #[.str "waitT", ji it.due]) else some (Json.arr #[.str "recheck"])
+      | [] => if xie then some (Json.arr #[.str "exitEmpty"]) else some (Json.arr #[.str "waitU"])
+  | .loop .waitU _ :: _ => if sh.wstate = .notified then some (Json.arr #[.str "woke"]) else none
+  | .loop .waitT _ :: _ => some (Json.arr #[.str "woke"])
+
+def elSilent (th : Th) : Bool :=
+  match th.stack with
+  | .act none [] :: _ => true
+  | .loop .exec [] :: _ => true
+  | _ => false
+
+def elThLabel (xie : Bool) (s : Thr.EL.Sys) (i : Nat) : Option Json :=
+  match s.ths[i]? with
+  | none => none
+  | some th => elLabel xie s.sh th
+
+def elSkipSilent (xie : Bool) (i : Nat) : Nat → Thr.EL.Sys → Thr.EL.Sys
+  | 0, s => s
+  | n + 1, s => match s.ths[i]? with
+    | some th => if elSilent th then elSkipSilent xie i n (s.step xie i 0) else s
+    | none => s
+
+def elReplay (xie : Bool) : Thr.EL.Sys → Nat → List (Nat × Json × Int) → Thr.EL.Sys × Option (Nat × Json)
+  | s, _, [] => (s, none)
+  | s, k, (i, l, clk) :: rest =>
+    let s0 := elSkipSilent xie i 8 s
+    -- the observed clock at this step: that much time has passed since the previous step
+    let s1 : Thr.EL.Sys := { s0 with sh := { s0.sh with clock := max s0.sh.clock clk } }
+    match elThLabel xie s1 i with
+    | none => (s1, some (k, Json.arr #[.str "not-enabled"]))
+    | some ml => if ml == l then elReplay xie (s1.step xie i 0) (k + 1) rest else (s1, some (k, ml))
+
+def elEvJson : Thr.EL.Ev → Option Json
+  | .sched t id due clk => some (Json.arr #[.str "sched", jn t, jn id, ji due, ji clk])
+  | .raised t id => some (Json.arr #[.str "raised", jn t, jn id])
+  | .passed _ _ => none
+  | .enq t id _ imm sp => some (Json.arr #[.str "enq", jn t, jn id, .bool imm, match sp with | some n => jn n | none => .null])
+  | .cancel t id => some (Json.arr #[.str "cancel", jn t, jn id])
+  | .dispose t f => some (Json.arr #[.str "dispose", jn t, .bool f])
+  | .collect t ids time => some (Json.arr #[.str "collect", jn t, jids ids, ji time])
+  | .exitDisposed t => some (Json.arr #[.str "exitDisposed", jn t])
+  | .start t id _ _ _ clk => some (Json.arr #[.str "start", jn t, jn id, ji clk])
+  | .skip t id _ _ _ => some (Json.arr #[.str "skip", jn t, jn id])
+  | .fin t id => some (Json.arr #[.str "fin", jn t, jn id])
+  | .cont _ => none
+  | .waitT t till => some (Json.arr #[.str "waitT", jn t, ji till])
+  | .recheck _ => none
+  | .waitU t => some (Json.arr #[.str "waitU", jn t])
+  | .exitEmpty t => some (Json.arr #[.str "exitEmpty", jn t])
+  | .woke t => some (Json.arr #[.str "woke", jn t])
+
+/-- is thread `i` able to make progress under the controller's blocking rules -/
+def elRunnable (s : Thr.EL.Sys) (i : Nat) : Bool :=
+  match s.ths[i]? with
+  | none => false
+  | some th =>
+    match th.stack with
+    | [] => false
+    | .loop .waitU _ :: _ => s.sh.wstate == .notified
+    | .loop .waitT _ :: _ =>
+      s.sh.wstate == .notified || (match s.sh.queue with | it :: _ => decide (it.due ≤ s.sh.clock) | [] => true)
+    | _ => true
+
+/-- the controller's default policy: keep running the last thread while it can run, else the lowest-numbered
+runnable thread; when nothing can run but a timed wait is pending, the clock jumps to its deadline. -/
+def elPolicy (xie : Bool) : Nat → Option Nat → Thr.EL.Sys → Thr.EL.Sys
+  | 0, _, s => s
+  | n + 1, last, s =>
+    let ids := (List.range s.ths.length).filter (elRunnable s)
+    match ids with
+    | [] =>
+      let timed := s.ths.any fun th => match th.stack with | .loop .waitT _ :: _ => true | _ => false
+      match timed, s.sh.queue with
+      | true, it :: _ => elPolicy xie n last { s with sh := { s.sh with clock := max s.sh.clock it.due } }
+      | _, _ => s
+    | i0 :: _ =>
+      let pick := match last with
+        | some l => if ids.contains l then l else i0
+        | none => i0
+      elPolicy xie n (some pick) (s.step xie pick 0)
+
+def elFinal (s : Thr.EL.Sys) : Json :=
+  Json.mkObj [("disposed", .bool s.sh.disposed), ("thread", match s.sh.thread with | some t => jn t | none => .null),
+    ("ready_list", jids (s.sh.readyList.map (·.id))), ("queue", jids (s.sh.queue.map (·.id))), ("clock", ji s.sh.clock),
+    ("nthreads", jn s.ths.length),
+    ("stacks", Json.arr (s.ths.map fun th => jn th.stack.length).toArray)]
+
+def handleEL (op : String) (j : Json) : Except String Json := do
+  let xie ← getBool j "xie"
+  let clock ← getInt j "clock"
+  let progs ← (← getArr j "progs").mapM fun p =>
+    match p with
+    | .arr ops => ops.toList.mapM elOpOfJson
+    | _ => throw "bad prog"
+  let s0 := Thr.EL.Sys.init progs clock
+  match op with
+  | "el_seq" =>
+    let fuel ← getNat j "fuel"
+    let s := elPolicy xie fuel none s0
+    pure (Json.mkObj [("events", Json.arr (s.sh.log.reverse.filterMap elEvJson).toArray), ("final", elFinal s)])
+  | "el_trace" =>
+    let steps ← (← getArr j "trace").mapM fun e =>
+      match e with
+      | .arr #[i, l, c] => do pure ((← i.getNat?), l, (← c.getInt?))
+      | _ => throw "bad trace entry"
+    let (s, bad) := elReplay xie s0 0 steps
+    let s := (List.range s.ths.length).foldl (fun s i => elSkipSilent xie i 8 s) s
+    match bad with
+    | none => pure (Json.mkObj [("ok", .bool true), ("final", elFinal s)])
+    | some (k, ml) => pure (Json.mkObj [("ok", .bool false), ("at", jn k), ("model", ml), ("state", elFinal s)])
+  | _ => throw s!"unknown op {op}"
+end EL
+
 def handle (op : String) (j : Json) : Except String Json := do
   if op.startsWith "so_" then handleSO op j
+  else if op.startsWith "el_" then handleEL op j
   else if op.startsWith "tr_" then handleTr op j
   else throw s!"unknown op {op}"
 
